@@ -58,6 +58,8 @@ def gen_cases(tier, seed):
     irs = list(grammar_irs(tier))
     for i in range(0, len(irs), 50):
         yield ('grammars', tier, i, min(len(irs), i + 50))
+    for kind in ('chain', 'cycle', 'two-cycles'):
+        yield ('deep', kind)
 
 
 def describe(case):
@@ -109,6 +111,9 @@ def run_case(case):
                     adj[v] = dict.fromkeys(succ)
                 check_scc(adj, r, ('digraphs', n, bits, bits + 1))
         return r
+    if case[0] == 'deep':
+        deep_graph(case[1], r, case)
+        return r
     if case[0] == 'grammar':
         if case[2] == 'edited':
             check_edited(case[1], r)
@@ -120,6 +125,7 @@ def run_case(case):
     for g in irs:
         check_grammar(g, r, stale=False)
         check_grammar(g, r, stale=True)
+        check_grammar(g, r, stale='shared-rhs')
         check_edited(g, r)
     return r
 
@@ -142,6 +148,74 @@ def add_stale_labels(fgg):
                 rule.rhs.remove_node(v)
 
 
+def share_rhs_objects(fgg):
+    """Presentation variant: rules (of different or equal left-hand sides) whose right-hand sides are equal graphs share
+    ONE Graph object.  Returns None when no two rules of the grammar can share."""
+    import fggs
+    from mc import canon
+    h = fggs.FGG(fgg.start)
+    for l in fgg.node_labels():
+        h.add_node_label(l)
+    for l in fgg.edge_labels():
+        h.add_edge_label(l)
+    seen = {}
+    shared = False
+    for rule in fgg.all_rules():
+        k = (tuple(rule.lhs.type), canon.canon_graph(rule.rhs))
+        if k in seen:
+            shared = True
+        else:
+            seen[k] = rule.rhs
+        h.add_rule(fggs.HRGRule(rule.lhs, seen[k]))
+    if not shared:
+        return None
+    h.domains = fgg.domains
+    h.factors = fgg.factors
+    return h
+
+
+def deep_graph(kind, r, case):
+    """Graphs whose depth-first search is deeper than the interpreter's recursion limit: scc may give up loudly
+    (RecursionError), but whatever it returns must be the right partition in dependency order."""
+    import sys
+    from fggs.utils import scc
+    lim = sys.getrecursionlimit()
+    try:
+        n = 3 * lim
+        if kind == 'chain':
+            adj = {i: ([i + 1] if i + 1 < n else []) for i in range(n)}
+            want = [{i} for i in range(n)]
+        elif kind == 'cycle':
+            adj = {i: [(i + 1) % n] for i in range(n)}
+            want = [set(range(n))]
+        else:
+            adj = {}
+            for i in range(n):
+                adj[2 * i] = [2 * i + 1]
+                adj[2 * i + 1] = [2 * i] + ([2 * i + 2] if i + 1 < n else [])
+            want = [{2 * i, 2 * i + 1} for i in range(n)]
+        try:
+            comps = scc(adj)
+        except RecursionError:
+            r.ok(('deep', kind), outcome='deep-recursion-error', nontrivial=False)
+            return
+        got = [set(c) for c in comps]
+        pos = {}
+        for ci, c in enumerate(got):
+            for v in c:
+                pos[v] = ci
+        okp = sorted(map(sorted, got)) == sorted(map(sorted, want)) and len(pos) == len(adj)
+        oko = okp and all(pos[u] <= pos[v] for v in adj for u in adj[v])
+        if not okp:
+            r.bad('wrong-partition', 'utils.scc', 'deep', '%s of %d vertices (recursion limit %d): %d components covering %d vertices, expected %d components' % (kind, len(adj), lim, len(got), len(pos), len(want)), case, ('deep', kind))
+        elif not oko:
+            r.bad('wrong-order', 'utils.scc', 'deep', '%s of %d vertices: a component has an edge into a later one' % (kind, len(adj)), case, ('deep', kind))
+        else:
+            r.ok(('deep', kind), outcome='deep-ok', nontrivial=True)
+    finally:
+        sys.setrecursionlimit(lim)
+
+
 def check_grammar(g, r, stale=False):
     import fggs, torch
     from fggs.utils import nonterminal_graph, scc
@@ -149,7 +223,11 @@ def check_grammar(g, r, stale=False):
     key = ('g', tuple(g['rules']), stale)
     try:
         fgg = IR.build_fgg(g, 'bool')
-        if stale:
+        if stale == 'shared-rhs':
+            fgg = share_rhs_objects(fgg)
+            if fgg is None:
+                return
+        elif stale:
             add_stale_labels(fgg)
         ng = nonterminal_graph(fgg)
     except Exception as e:
